@@ -99,6 +99,7 @@ var (
 	BarrierLeaves = []Kind{LHandled, LHandledMsg}
 	MultiLeaves   = []Kind{LJoin, LStdJoin, LFmtMulti}
 	SimpleLeaves  = []Kind{LNew, LNewfUnsafe, LStd, LUserPlain}
+	BranchLeaves  = []Kind{LNew, LNewfUnsafe, LStd, LUserPlain, LCtxCanceled}
 
 	MsgWrappers     = []Kind{WMessage, WWrap, WWrapf, WNewfW}
 	AnnotWrappers   = []Kind{WStack, WHint, WDetail, WSafeDetails, WTelemetry, WDomain, WIssueLink, WTags, WAssertFail, WMark, WSecondary, WHTTP, WGrpc}
@@ -212,12 +213,14 @@ func (a addr) String() string  { return a.s }
 
 // G holds generation options.
 type G struct {
-	V      *sym.V
-	Cls    sym.Class // class of message strings
-	Min    int
-	Max    int // max length of each symbolic string
-	Budget int // remaining symbolic strings; afterwards concrete fillers are used
-	ctr    int
+	V         *sym.V
+	Cls       sym.Class // class of message strings
+	ClsSafe   sym.Class // class of strings entering through safe channels
+	ClsUnsafe sym.Class // class of strings entering through unsafe channels
+	Min       int
+	Max       int // max length of each symbolic string
+	Budget    int // remaining symbolic strings; afterwards concrete fillers are used
+	ctr       int
 }
 
 // B describes a built error together with its reference model.
@@ -237,8 +240,15 @@ type B struct {
 	Domain  string // model of GetDomain: "" = not tracked
 }
 
-// Str draws a symbolic string (or a concrete filler once the budget is spent).
-func (g *G) Str(name string) string {
+// StrS draws a string for a channel the library treats as safe, StrU for an unsafe channel.
+func (g *G) StrS(name string) string { return g.str(name, g.ClsSafe) }
+func (g *G) StrU(name string) string { return g.str(name, g.ClsUnsafe) }
+
+// Str draws a symbolic string of the default class.
+func (g *G) Str(name string) string { return g.str(name, g.Cls) }
+
+// str draws a symbolic string (or a concrete filler once the budget is spent).
+func (g *G) str(name string, cls sym.Class) string {
 	g.ctr++
 	if g.Budget <= 0 {
 		return fmt.Sprintf("k%d", g.ctr)
@@ -248,7 +258,7 @@ func (g *G) Str(name string) string {
 	if min == 0 {
 		min = 1
 	}
-	return g.V.Str(name, g.Cls, min, g.Max)
+	return g.V.Str(name, cls, min, g.Max)
 }
 
 func (g *G) pick(name string, kinds []Kind) Kind {
@@ -265,23 +275,23 @@ func (g *G) LeafOf(name string, k Kind) *B {
 	b := &B{Kinds: []Kind{k}}
 	switch k {
 	case LNew:
-		m := g.Str(name + ".m")
+		m := g.StrS(name + ".m")
 		b.Err, b.Text = errors.New(m), m
 		b.Safe = []string{m}
 	case LNewfUnsafe:
-		m := g.Str(name + ".m")
+		m := g.StrU(name + ".m")
 		b.Err, b.Text = errors.Newf("%s", m), m
 		b.Unsafe = []string{m}
 	case LNewfSafe:
-		m := g.Str(name + ".m")
+		m := g.StrS(name + ".m")
 		b.Err, b.Text = errors.Newf("x%sy", errors.Safe(m)), "x"+m+"y"
 		b.Safe = []string{m}
 	case LStd:
-		m := g.Str(name + ".m")
+		m := g.StrU(name + ".m")
 		b.Err, b.Text = stderrors.New(m), m
 		b.Unsafe = []string{m}
 	case LPkg:
-		m := g.Str(name + ".m")
+		m := g.StrU(name + ".m")
 		b.Err, b.Text = pkgerrors.New(m), m
 		b.Unsafe = []string{m}
 	case LCtxCanceled:
@@ -295,31 +305,31 @@ func (g *G) LeafOf(name string, k Kind) *B {
 	case LErrno:
 		b.Err, b.Text = syscall.ENOENT, "no such file or directory"
 	case LUnimpl:
-		m := g.Str(name + ".m")
+		m := g.StrS(name + ".m")
 		b.Err, b.Text = errors.UnimplementedError(errors.IssueLink{IssueURL: "http://u/1"}, m), m
 		b.Safe = []string{m}
 	case LAssert:
-		m := g.Str(name + ".m")
+		m := g.StrU(name + ".m")
 		b.Err, b.Text = errors.AssertionFailedf("%s", m), m
 		b.Unsafe = []string{m}
 	case LUserPlain:
-		m := g.Str(name + ".m")
+		m := g.StrU(name + ".m")
 		b.Err, b.Text = &UserPlain{m}, m
 		b.Unsafe = []string{m}
 	case LUserFmt:
-		m := g.Str(name + ".m")
+		m := g.StrU(name + ".m")
 		b.Err, b.Text = &UserFmt{m}, m
 		b.Unsafe = []string{m}
 	case LUserSafeFmt:
-		m := g.Str(name + ".m")
+		m := g.StrU(name + ".m")
 		b.Err, b.Text = &UserSafeFmt{m}, m
 		b.Unsafe = []string{m}
 	case LUserNonComparable:
-		m := g.Str(name + ".m")
+		m := g.StrU(name + ".m")
 		b.Err, b.Text = UserNonComparable{Msg: m, Tags: []string{"t"}}, m
 		b.Unsafe = []string{m}
 	case LUserIs:
-		m := g.Str(name + ".m")
+		m := g.StrU(name + ".m")
 		b.Err, b.Text = &UserIs{m}, m
 		b.Unsafe = []string{m}
 	case LProto:
@@ -330,27 +340,27 @@ func (g *G) LeafOf(name string, k Kind) *B {
 		b.Unsafe, b.Safe = in.Unsafe, in.Safe
 	case LHandledMsg:
 		in := g.Leaf(name+".h", SimpleLeaves)
-		m := g.Str(name + ".m")
+		m := g.StrU(name + ".m")
 		b.Err, b.Text = errors.HandledWithMessage(in.Err, m), m
 		b.Unsafe = append(append([]string{}, in.Unsafe...), m)
 		b.Safe = in.Safe
 	case LJoin:
-		x := g.Leaf(name+".a", SimpleLeaves)
-		y := g.Leaf(name+".b", SimpleLeaves)
+		x := g.Leaf(name+".a", BranchLeaves)
+		y := g.Leaf(name+".b", BranchLeaves)
 		b.Err, b.Text = errors.Join(x.Err, y.Err), x.Text+"\n"+y.Text
 		b.Multi = []*B{x, y}
 		b.Unsafe = append(append([]string{}, x.Unsafe...), y.Unsafe...)
 		b.Safe = append(append([]string{}, x.Safe...), y.Safe...)
 	case LStdJoin:
-		x := g.Leaf(name+".a", SimpleLeaves)
-		y := g.Leaf(name+".b", SimpleLeaves)
+		x := g.Leaf(name+".a", BranchLeaves)
+		y := g.Leaf(name+".b", BranchLeaves)
 		b.Err, b.Text = stderrors.Join(x.Err, y.Err), x.Text+"\n"+y.Text
 		b.Multi = []*B{x, y}
 		b.Unsafe = append(append([]string{}, x.Unsafe...), y.Unsafe...)
 		b.Safe = append(append([]string{}, x.Safe...), y.Safe...)
 	case LFmtMulti:
-		x := g.Leaf(name+".a", SimpleLeaves)
-		y := g.Leaf(name+".b", SimpleLeaves)
+		x := g.Leaf(name+".a", BranchLeaves)
+		y := g.Leaf(name+".b", BranchLeaves)
 		b.Err, b.Text = fmt.Errorf("%w - %w", x.Err, y.Err), x.Text+" - "+y.Text
 		b.Multi = []*B{x, y}
 		b.Unsafe = append(append([]string{}, x.Unsafe...), y.Unsafe...)
@@ -381,63 +391,63 @@ func (g *G) WrapOf(name string, c *B, k Kind) *B {
 	e := c.Err
 	switch k {
 	case WMessage:
-		m := g.Str(name + ".m")
+		m := g.StrS(name + ".m")
 		b.Err, b.Text = errors.WithMessage(e, m), prefixText(m, c.Text)
 		b.Safe = append(append([]string{}, c.Safe...), m)
 	case WWrap:
-		m := g.Str(name + ".m")
+		m := g.StrS(name + ".m")
 		b.Err, b.Text = errors.Wrap(e, m), prefixText(m, c.Text)
 		b.Safe = append(append([]string{}, c.Safe...), m)
 	case WWrapf:
-		m := g.Str(name + ".m")
+		m := g.StrU(name + ".m")
 		b.Err, b.Text = errors.Wrapf(e, "%s", m), prefixText(m, c.Text)
 		b.Unsafe = append(append([]string{}, c.Unsafe...), m)
 	case WNewfW:
-		m := g.Str(name + ".m")
+		m := g.StrU(name + ".m")
 		b.Err, b.Text = errors.Newf("%s - %w", m, e), m+" - "+c.Text
 		b.Unsafe = append(append([]string{}, c.Unsafe...), m)
 	case WStack:
 		b.Err = errors.WithStack(e)
 	case WHint:
-		m := g.Str(name + ".m")
+		m := g.StrU(name + ".m")
 		b.Err = errors.WithHint(e, m)
 		b.Hints = append(append([]string{}, c.Hints...), m)
 		b.Unsafe = append(append([]string{}, c.Unsafe...), m)
 	case WDetail:
-		m := g.Str(name + ".m")
+		m := g.StrU(name + ".m")
 		b.Err = errors.WithDetail(e, m)
 		b.Details = append(append([]string{}, c.Details...), m)
 		b.Unsafe = append(append([]string{}, c.Unsafe...), m)
 	case WSafeDetails:
-		m := g.Str(name + ".m")
+		m := g.StrS(name + ".m")
 		b.Err = errors.WithSafeDetails(e, "sd %s", errors.Safe(m))
 		b.Safe = append(append([]string{}, c.Safe...), m)
 	case WTelemetry:
-		m := g.Str(name + ".m")
+		m := g.StrS(name + ".m")
 		b.Err = errors.WithTelemetry(e, m)
 		b.Safe = append(append([]string{}, c.Safe...), m)
 	case WDomain:
-		m := g.Str(name + ".m")
+		m := g.StrS(name + ".m")
 		b.Err = errors.WithDomain(e, errors.NamedDomain(m))
 		b.Safe = append(append([]string{}, c.Safe...), m)
 		b.Domain = "error domain: \"" + m + "\""
 	case WIssueLink:
-		m := g.Str(name + ".m")
+		m := g.StrS(name + ".m")
 		b.Err = errors.WithIssueLink(e, errors.IssueLink{IssueURL: m, Detail: "d"})
 		b.Safe = append(append([]string{}, c.Safe...), m)
 	case WTags:
-		m := g.Str(name + ".m")
+		m := g.StrU(name + ".m")
 		ctx := logtags.AddTag(context.Background(), "tk", m)
 		b.Err = errors.WithContextTags(e, ctx)
 		b.Unsafe = append(append([]string{}, c.Unsafe...), m)
 	case WAssertFail:
 		b.Err = errors.WithAssertionFailure(e)
 	case WMark:
-		m := g.Str(name + ".m")
+		m := g.StrU(name + ".m")
 		b.Err = errors.Mark(e, stderrors.New(m))
 		b.Unsafe = append(append([]string{}, c.Unsafe...), m)
 	case WSecondary:
-		m := g.Str(name + ".m")
+		m := g.StrU(name + ".m")
 		b.Err = errors.WithSecondaryError(e, errors.Newf("%s", m))
 		b.Unsafe = append(append([]string{}, c.Unsafe...), m)
 	case WHTTP:
@@ -448,52 +458,52 @@ func (g *G) WrapOf(name string, c *B, k Kind) *B {
 		b.Err = extgrpc.WrapWithGrpcCode(e, codes.NotFound)
 		b.Grpc, b.HasGrpc = uint32(codes.NotFound), true
 	case WPkgMsg:
-		m := g.Str(name + ".m")
+		m := g.StrU(name + ".m")
 		b.Err, b.Text = pkgerrors.WithMessage(e, m), m+": "+c.Text
 		b.Unsafe = append(append([]string{}, c.Unsafe...), m)
 	case WPkgStack:
 		b.Err = pkgerrors.WithStack(e)
 	case WFmtPrefix:
-		m := g.Str(name + ".m")
+		m := g.StrU(name + ".m")
 		b.Err, b.Text = fmt.Errorf("%s: %w", m, e), m+": "+c.Text
 		b.Unsafe = append(append([]string{}, c.Unsafe...), m)
 	case WFmtSuffix:
-		m := g.Str(name + ".m")
+		m := g.StrU(name + ".m")
 		b.Err, b.Text = fmt.Errorf("%w - %s", e, m), c.Text+" - "+m
 		b.Unsafe = append(append([]string{}, c.Unsafe...), m)
 	case WPathError:
-		m := g.Str(name + ".m")
+		m := g.StrU(name + ".m")
 		b.Err, b.Text = &os.PathError{Op: "open", Path: m, Err: e}, "open "+m+": "+c.Text
 		b.Unsafe = append(append([]string{}, c.Unsafe...), m)
 	case WLinkError:
-		m := g.Str(name + ".m")
+		m := g.StrU(name + ".m")
 		b.Err, b.Text = &os.LinkError{Op: "link", Old: m, New: "n", Err: e}, "link "+m+" n: "+c.Text
 		b.Unsafe = append(append([]string{}, c.Unsafe...), m)
 	case WSyscallError:
 		b.Err, b.Text = os.NewSyscallError("open", e), "open: "+c.Text
 	case WOpError:
-		m := g.Str(name + ".m")
+		m := g.StrU(name + ".m")
 		b.Err, b.Text = &net.OpError{Op: "dial", Net: "tcp", Addr: addr{m}, Err: e}, "dial tcp "+m+": "+c.Text
 		b.Unsafe = append(append([]string{}, c.Unsafe...), m)
 	case WUserPrefix:
-		m := g.Str(name + ".m")
+		m := g.StrU(name + ".m")
 		b.Err, b.Text = &UserPrefix{m, e}, m+": "+c.Text
 		b.Unsafe = append(append([]string{}, c.Unsafe...), m)
 	case WUserFull:
-		m := g.Str(name + ".m")
+		m := g.StrU(name + ".m")
 		b.Err, b.Text = &UserFull{m, e}, m
 		b.Unsafe = append(append([]string{}, c.Unsafe...), m)
 	case WUserFmt:
-		m := g.Str(name + ".m")
+		m := g.StrU(name + ".m")
 		b.Err, b.Text = &UserWFmt{m, e}, m+": "+c.Text
 		b.Unsafe = append(append([]string{}, c.Unsafe...), m)
 	case WUserSafeFmt:
-		m := g.Str(name + ".m")
+		m := g.StrU(name + ".m")
 		b.Err, b.Text = &UserWSafeFmt{m, e}, m+": "+c.Text
 		b.Unsafe = append(append([]string{}, c.Unsafe...), m)
 	case WHandledDomain:
 		// barrier: becomes a leaf
-		m := g.Str(name + ".m")
+		m := g.StrS(name + ".m")
 		b.Err = errors.HandledInDomain(e, errors.NamedDomain(m))
 		b.Kinds = []Kind{k}
 		b.Leaf = nil
